@@ -331,3 +331,16 @@ MUTANTS += [
  dict(id='c16-unlock-world-best', props=['C16'], file=WG, old="    @_serialised\n    def world_best(self, gender, event):", new="    def world_best(self, gender, event):"),
  dict(id='c16-unfix-evict', props=['C16'], file=U, old="    for k in list(c)[max(maxlen-1, 0):]:\n        c.pop(k, None)", new="    it = reversed(c)\n    while len(c) >= maxlen:\n        c.pop(next(it))"),
 ]
+
+JT = 'js/src/tyrving_score.js'; JQ = 'js/src/qkids_score.js'; JU = 'js/src/utils.js'
+MUTANTS += [
+ # ---- C18 -----------------------------------------------------------------------
+ dict(id='c18-js-base-edit', props=['C18'], file=JT, old="'800': ['race', [800, 1.5, [14, [141, 138.5, 136, 134, 133, 132.5]]]],", new="'800': ['race', [800, 1.5, [14, [141, 138.5, 136.1, 134, 133, 132.5]]]],"),
+ dict(id='c18-js-qkids-nofuzz', props=['C18'], file=JQ, old="1e-6 + ", new="", count=1),
+ dict(id='c18-js-pad', props=['C18'], file=JU, old="else if (mins) t = [mins + '', pad(secs, 2)];", new="else if (mins) t = [mins + '', pad(secs, 1)];"),
+ dict(id='c18-py-tyrving-nofuzz', props=['C18'], file=T, count=3, old="int(1000 + 1e-8 + ", new="int(1000 + "),
+ dict(id='c18-py-carry', props=['C18'], file=U, old="            if secs==60:", new="            if secs>60:"),
+ dict(id='c18-js-unfix-hand', props=['C18'], file=JT, old="[40, 60, 80, 300].indexOf(dist) >= 0 ? 0.20", new="[40, 60, 80, 300].indexOf(v) >= 0 ? 0.20"),
+ dict(id='c18-js-hand-timing', props=['C18'], file=JU, old="  return dp < 0 || (perf.length - dp) < 3;", new="  return dp < 0 || (perf.length - dp) < 2;"),
+ dict(id='c18-js-parse-sep', props=['C18'], file=JU, old="  for (sep in { ':': null, ';': null }) {", new="  for (sep in { ':': null }) {"),
+]
